@@ -159,7 +159,8 @@ def assumptions(prop_module, theorems):
         f.write("From A1 Require Import %s.\n" % prop_module)
         for t in theorems:
             f.write('Check %s.\nPrint Assumptions %s.\n' % (t, t))
-    rc, out = sh(["timeout", "300", "coqc", "-Q", COQ, "A1", "-noglob", path], cwd=CACHE)
+    with Lock("coq"):
+        rc, out = sh(["timeout", "300", "coqc", "-Q", COQ, "A1", "-noglob", path], cwd=CACHE)
     for ext in (".v", ".vo", ".vok", ".vos", ".glob"):
         try:
             os.remove(os.path.join(CACHE, name + ext))
@@ -249,24 +250,31 @@ def build_harness(features="default", profile="dev", cfg_hooks=True):
         return exe, out
 
 
-def _limits(mem_gb):
-    def f():
-        resource.setrlimit(resource.RLIMIT_AS, (mem_gb << 30, mem_gb << 30))
-        resource.setrlimit(resource.RLIMIT_CORE, (0, 0))
-    return f
-
-
 def _run_chunk(cmd, lines, timeout, mem_gb):
+    """cmd is a list; the child runs under `ulimit -v` (set by a wrapping /bin/sh so that Python can
+    vfork/posix_spawn instead of forking its own large address space)."""
     inp = ("\n".join(lines) + "\n").encode()
+    import shlex
+    wrapped = ["/bin/sh", "-c", "ulimit -c 0; ulimit -v %d; exec %s" % (mem_gb << 20, " ".join(shlex.quote(c) for c in cmd))]
     try:
-        p = subprocess.run(cmd, input=inp, stdout=subprocess.PIPE, stderr=subprocess.DEVNULL,
-                           timeout=timeout, preexec_fn=_limits(mem_gb))
+        env = dict(os.environ)
+        env["RUST_BACKTRACE"] = "0"
+        p = subprocess.run(wrapped, input=inp, stdout=subprocess.PIPE, stderr=subprocess.DEVNULL,
+                           timeout=timeout, env=env)
         out = p.stdout.decode().split("\n")
         if out and out[-1] == "":
             out.pop()
         if p.returncode == 0 and len(out) == len(lines):
             return out
         why = "32"  # abort / killed / OOM
+        # the answers before the crash are valid: keep them and continue after the offending line
+        if 0 <= len(out) < len(lines) and p.returncode != 0:
+            k = len(out)
+            # line k crashed the child (its answer was never flushed; earlier answers may be lost to buffering)
+            if k > 0 and all(o != "" for o in out):
+                rest = _run_chunk(cmd, lines[k + 1:], timeout, mem_gb) if k + 1 < len(lines) else []
+                one = _run_chunk(cmd, [lines[k]], timeout, mem_gb)
+                return out + one + rest
     except subprocess.TimeoutExpired:
         why = "31"  # hang
     if len(lines) == 1:
@@ -283,10 +291,16 @@ def run_lines(cmd, lines, chunk=None, timeout=120, mem_gb=4, workers=None):
     workers = workers or NCPU
     if chunk is None:
         chunk = max(1, min(4000, (len(lines) + workers - 1) // workers))
-    chunks = [lines[i:i + chunk] for i in range(0, len(lines), chunk)]
+    # round-robin assignment so that runs of expensive neighbouring cases are spread over the chunks
+    nch = max(1, (len(lines) + chunk - 1) // chunk)
+    idxs = [list(range(k, len(lines), nch)) for k in range(nch)]
     with ThreadPoolExecutor(max_workers=workers) as ex:
-        outs = list(ex.map(lambda c: _run_chunk(cmd, c, timeout, mem_gb), chunks))
-    return [l for o in outs for l in o]
+        outs = list(ex.map(lambda ix: _run_chunk(cmd, [lines[i] for i in ix], timeout, mem_gb), idxs))
+    res = [None] * len(lines)
+    for ix, o in zip(idxs, outs):
+        for i, v in zip(ix, o):
+            res[i] = v
+    return res
 
 
 def run_model(lines, mode="dev", **kw):
@@ -315,7 +329,8 @@ def coq_crosscheck(cases, mode="dev"):
         f.write("].\n")
         f.write("Definition bad := filter (fun c => negb (agree %s c)) cases.\n" % ("true" if mode == "dev" else "false"))
         f.write("Eval vm_compute in (length bad, map (fun c => fst (fst c)) (firstn 5 bad)).\n")
-    rc, out = sh(["timeout", "600", "coqc", "-Q", COQ, "A1", "-noglob", path], cwd=CACHE, timeout=630)
+    with Lock("coq"):
+        rc, out = sh(["timeout", "600", "coqc", "-Q", COQ, "A1", "-noglob", path], cwd=CACHE, timeout=630)
     for ext in (".v", ".vo", ".vok", ".vos", ".glob"):
         try:
             os.remove(os.path.join(CACHE, name + ext))
@@ -492,14 +507,29 @@ def run_check(spec, tier, seed):
         mlines = [spec.model_line(l, (feat, prof)) for l in blines]
         impl = run_lines([exe], blines, timeout=spec.timeout_per_chunk, mem_gb=spec.mem_gb)
         model = run_model(mlines, mode=prof, timeout=spec.timeout_per_chunk * 3, mem_gb=8)
+        refs = None
+        if hasattr(spec, "ref_line"):
+            # independent reference (e.g. the X.691 transcription) evaluated by the extracted model driver
+            rl = [spec.ref_line(l) for l in blines]
+            idx = [i for i, r in enumerate(rl) if r]
+            ro = run_model([rl[i] for i in idx], mode=prof, timeout=spec.timeout_per_chunk * 3, mem_gb=8)
+            refs = [None] * len(blines)
+            for i, r in zip(idx, ro):
+                refs[i] = r
         evaluations += len(blines)
-        for l, ml, io, mo in zip(blines, mlines, impl, model):
+        for j, (l, ml, io, mo) in enumerate(zip(blines, mlines, impl, model)):
             ci, cm = spec.canon(io), spec.canon(mo)
             if ci != cm:
                 disagreements.append({"case": l, "build": [feat, prof], "impl": io[:400], "model": mo[:400]})
-            o = spec.oracle(l, io, (feat, prof))
+            if refs is not None:
+                o = spec.oracle(l, io, (feat, prof), refs[j])
+            else:
+                o = spec.oracle(l, io, (feat, prof))
             if o is not None:
-                oracle_fail.append({"case": l, "build": [feat, prof], "impl": io[:400], "class": o[0], "what": o[1]})
+                # an oracle may report one (class, text) or a list of them: every class is judged on its own,
+                # so a listed finding never masks a different failure on the same case
+                for oc in (o if isinstance(o, list) else [o]):
+                    oracle_fail.append({"case": l, "build": [feat, prof], "impl": io[:400], "class": oc[0], "what": oc[1]})
             if spec.nontrivial(l, io):
                 nontrivial.add(l)
             k = l.split()[0] + ":" + (io.split()[0] if io else "?")
